@@ -442,7 +442,42 @@ def g_rules(p: Project, rep: Report):
             splits = [c_ for c_ in ast.walk(cl) if isinstance(c_, ast.Call) and isinstance(c_.func, ast.Attribute) and c_.func.attr == "split"]
             seps = [_fold_l(c_.args[0], {}, p, OFXGET) if c_.args else None for c_ in splits]
             strips = any(isinstance(c_, ast.Call) and isinstance(c_.func, ast.Attribute) and c_.func.attr == "strip" and not c_.args for c_ in ast.walk(cl))
-            if not splits or any(not isinstance(s_, str) for s_ in seps):
+            # a pattern split: <compiled regex>.split(text) / re.split(<pattern>, text)
+            rx_split = None
+            for c_ in splits:
+                recv_ = c_.func.value
+                pat_ = None
+                if isinstance(recv_, ast.Name) and recv_.id != "re" and p.has_binding(OFXGET, recv_.id):
+                    try:
+                        from . import rx as _rx
+
+                        pat_ = _rx.module_regex(p, OFXGET, recv_.id)
+                    except AnalysisError:
+                        pat_ = None
+                if pat_ is not None:
+                    rx_split = (c_, pat_)
+            if rx_split is not None:
+                from . import rx as _rx
+
+                c_, pat_ = rx_split
+                cc_ = _rx.sre_c
+
+                def _needs_comma(seq_):
+                    """every string the sequence matches contains a comma"""
+                    for op_, av_ in seq_:
+                        if op_ is cc_.LITERAL and av_ == ord(","):
+                            return True
+                        if op_ is cc_.SUBPATTERN and _needs_comma(av_[-1]):
+                            return True
+                        if op_ in (cc_.MAX_REPEAT, cc_.MIN_REPEAT) and av_[0] >= 1 and _needs_comma(av_[2]):
+                            return True
+                        if op_ is cc_.BRANCH and all(_needs_comma(alt_) for alt_ in av_[1]):
+                            return True
+                    return False
+
+                needs = _needs_comma(list(pat_.tree))
+                rep.check("G-R3", "writer[list]/reader[list]:separator", needs and w_ok, f"the list reader splits on the pattern {pat_.pattern!r}, which also matches a run of blanks without a comma: an account number saved as `12 3456 789` (the writer keeps inner blanks) is read back as three accounts" if not needs else ("list writer and list reader disagree on the ', ' separated form" if not w_ok else ""), gloc(p, cl))
+            elif not splits or any(not isinstance(s_, str) for s_ in seps):
                 rep.note("G-R3 undecided: list reader not recognised")
             else:
                 r_ok = all(s_ == "," for s_ in seps) and strips
@@ -1291,3 +1326,121 @@ def g_r11_unreachable_ofxhome_sets_nothing(p: Project, rep: Report):
                     covered = True
             node = par
         rep.check("G-R11", f"fetch_fi_xml:urlopen#{i}:inside-the-handling-try", covered, f"{text(c)[:50]} is evaluated outside the try that handles URLError: when OFX Home cannot be reached the lookup raises instead of setting nothing, and the settings the higher sources supplied are lost with the run" if not covered else "", f"{p.module(modname).relpath}:{c.lineno}")
+
+
+def g_r12_fid_repair_keeps_the_element(p: Project, rep: Report):
+    """the repair of OFX Home's unescaped <fid> escapes the CONTENT, not the tags"""
+    rep.rule("G-R12", "OFX Home does not escape '&' in <fid>; the repair pass (FID_REGEX.sub(<callback>, ..)) escapes the captured CONTENT group and puts it back between literal <fid> tags - escaping the whole match (group() / group(0)) would escape the tags as well: the document still parses, the <fid> element is gone, and the lookup yields FID None, so the OFX Home layer no longer supplies it")
+    modname = "ofxtools.ofxhome"
+    if modname not in p.modules:
+        rep.note("G-R12 undecided: ofxtools.ofxhome not found")
+        return
+    m = p.module(modname)
+    cbs = set()
+    for c in ast.walk(m.tree):
+        if isinstance(c, ast.Call) and isinstance(c.func, ast.Attribute) and c.func.attr in ("sub", "subn") and "FID" in text(c.func.value).upper() and c.args and isinstance(c.args[0], ast.Name):
+            cbs.add(c.args[0].id)
+    if not cbs:
+        rep.note("G-R12 undecided: no FID repair substitution found in ofxhome")
+        return
+    for nm in sorted(cbs):
+        try:
+            fn = p.get_function(modname, nm).node
+        except AnalysisError:
+            continue
+        mp = fn.args.args[0].arg if fn.args.args else None
+        whole = None
+        content = False
+        for c in ast.walk(fn):
+            if isinstance(c, ast.Call) and (dotted(c.func) or text(c.func)).split(".")[-1] == "escape" and c.args:
+                a = Expander(fn).x(c.args[0])  # `raw = match.group(1); escape(raw)`
+                if isinstance(a, ast.Call) and isinstance(a.func, ast.Attribute) and a.func.attr == "group" and isinstance(a.func.value, ast.Name) and a.func.value.id == mp:
+                    if not a.args or (isinstance(a.args[0], ast.Constant) and a.args[0].value == 0):
+                        whole = c
+                    else:
+                        content = True
+                elif isinstance(a, ast.Subscript) and isinstance(a.value, ast.Name) and a.value.id == mp:
+                    if isinstance(a.slice, ast.Constant) and a.slice.value == 0:
+                        whole = c
+                    else:
+                        content = True
+        tags = any(isinstance(x, ast.Constant) and isinstance(x.value, str) and "<fid>" in x.value.lower() for x in ast.walk(fn))
+        ok = whole is None and content and tags
+        rep.check("G-R12", f"{nm}:escapes-content-between-literal-tags", ok, (f"{text(whole)[:50]} escapes the whole match, tags included" if whole is not None else ("the callback does not escape the captured content group" if not content else "the callback does not put the content back between literal <fid> tags")) + ": the repaired record has no <fid> element and the lookup returns FID None" if not ok else "", f"{m.relpath}:{fn.lineno}")
+
+
+_ITER_MAKERS = ("chain", "from_iterable", "map", "filter", "zip", "iter", "groupby", "islice", "takewhile", "dropwhile", "starmap", "finditer", "iterfind", "iterdir", "glob", "reversed", "enumerate")
+_CONSUMERS = ("list", "sorted", "tuple", "set", "frozenset", "dict", "sum", "max", "min", "any", "all", "len", "next", "join", "extend", "update", "Counter", "deque")
+
+
+def _returns_iterator(p: Project, modname: str, fname: str) -> bool:
+    try:
+        fn = p.get_function(modname, fname).node
+    except AnalysisError:
+        return False
+    if any(isinstance(x, (ast.Yield, ast.YieldFrom)) for x in ast.walk(fn)):
+        return True
+    ann = text(fn.returns) if fn.returns is not None else ""
+    if ann.startswith(("Iterator", "Iterable[", "Generator", "typing.Iterator")) and not ann.startswith(("List", "Sequence")):
+        rets = [r.value for r in ast.walk(fn) if isinstance(r, ast.Return) and r.value is not None]
+        if rets and all(isinstance(v, ast.GeneratorExp) or (isinstance(v, ast.Call) and (dotted(v.func) or text(v.func)).split(".")[-1] in _ITER_MAKERS) for v in rets):
+            return True
+    return False
+
+
+def j_r10_one_shot_iterators_consumed_once(p: Project, rep: Report):
+    """what a one-shot iterator yields is looked at once"""
+    from .source import parent as _parent
+
+    rep.rule("J-R10", "the accounts the server lists are consumed once: in the functions that merge / request accounts, a local bound to a ONE-SHOT iterator (the result of a generator function such as extract_acctinfos, of itertools.chain / map / filter, or a generator expression) is consumed (list / sorted / for / join ...) at most once on any path - a second consumer (e.g. one added for a debug log) sees nothing, so no discovered account reaches the request")
+    n = 0
+    for fname in ("_merge_acctinfo", "request_stmt", "request_stmtend", "request_acctinfo", "_request_acctinfo"):
+        try:
+            fn = _fn(p, fname)
+        except AnalysisError:
+            continue
+        for x in ast.walk(fn):
+            for ch in ast.iter_child_nodes(x):
+                ch._parent = x
+        for st in ast.walk(fn):
+            if not (isinstance(st, ast.Assign) and len(st.targets) == 1 and isinstance(st.targets[0], ast.Name)):
+                continue
+            v = st.value
+            one_shot = isinstance(v, ast.GeneratorExp)
+            if isinstance(v, ast.Call):
+                last = (dotted(v.func) or text(v.func)).split(".")[-1]
+                one_shot = last in _ITER_MAKERS or (isinstance(v.func, ast.Name) and _returns_iterator(p, OFXGET, v.func.id))
+            if not one_shot:
+                continue
+            name = st.targets[0].id
+            if sum(1 for y in ast.walk(fn) if isinstance(y, ast.Name) and isinstance(y.ctx, ast.Store) and y.id == name) != 1:
+                continue
+            n += 1
+            uses = []
+            for y in ast.walk(fn):
+                if isinstance(y, ast.Name) and isinstance(y.ctx, ast.Load) and y.id == name and y.lineno >= st.lineno:
+                    par = _parent(y)
+                    consumed = (isinstance(par, ast.Call) and y in par.args and (dotted(par.func) or text(par.func)).split(".")[-1] in _CONSUMERS) or (isinstance(par, (ast.For, ast.comprehension)) and par.iter is y) or isinstance(par, ast.Starred)
+                    if consumed:
+                        uses.append(y)
+
+            def arms(node):
+                """[(if statement, arm name)] enclosing the node"""
+                out, cur = [], node
+                while cur is not None and cur is not fn:
+                    par = _parent(cur)
+                    if isinstance(par, ast.If):
+                        out.append((par, "body" if any(cur is s_ or any(z is cur for z in ast.walk(s_)) for s_ in par.body) else "orelse"))
+                    cur = par
+                return out
+
+            clash = None
+            for i_ in range(len(uses)):
+                for j_ in range(i_ + 1, len(uses)):
+                    a_, b_ = dict((id(k), v_) for k, v_ in arms(uses[i_])), dict((id(k), v_) for k, v_ in arms(uses[j_]))
+                    exclusive = any(k in b_ and b_[k] != v_ for k, v_ in a_.items())
+                    if not exclusive:
+                        clash = clash or (uses[i_], uses[j_])
+            rep.check("J-R10", f"{fname}:{name}:consumed-once", clash is None, f"`{name}` is a one-shot iterator ({text(v)[:40]}) and is consumed at line {clash[0].lineno} and again at line {clash[1].lineno}: the second consumer finds it empty - with the first one behind `if logger.isEnabledFor(DEBUG)`, running with -vv silently requests none of the discovered accounts" if clash else "", gloc(p, st))
+    if n == 0:
+        rep.check("J-R10", "ofxget:no-iterator-bound-to-a-local", True, "nothing to consume twice", "")
